@@ -22,7 +22,11 @@ RULE = ('2-3 threads, each a program of 1-3 cache operations on a shared LRI/LRU
         'the C02 reference cache - some interleaving of the operations (respecting program order) yields exactly the observed return values / '
         'exception types, final contents and final eviction order (probed sequentially afterwards); no deadlock, len <= max_size, cache usable '
         'afterwards. non-trivial = a pre-emption happened inside a cache method while the threads share a key or cause an eviction. '
-        'distinct = distinct (program, schedule) pairs (counted as inner executions).')
+        'distinct = distinct (program, schedule) pairs (counted as inner executions). Keys include an unhashable one (every operation must raise '
+        'TypeError, change nothing and leave the lock free). Sub "bulk": one thread calls update() with 1000-8193 items (dict, pairs, generator, '
+        'keys()-object, keyword arguments; max_size 3 .. 2n) while 1-2 threads read len/copy/first/last/middle keys; per-opcode enumeration is out of '
+        'reach there, so every complete release of the cache lock is a pre-emption point (all single ones, generated multiples) - in an atomic '
+        'implementation the lock is only released between operations.')
 ASSUMPTIONS = [
     'CPython with the GIL: pre-emption granularity is one bytecode instruction of cacheutils.py; C-level dict operations are atomic',
     'at most 3 pre-emptions, 3 threads x 3 operations; counters are not compared under concurrency (statement: values, contents, order)',
@@ -54,6 +58,8 @@ class Scheduler:
         self.local = threading.local()
         self.error = None
         self.owners = []        # which thread executed each opcode step
+        self.releases = 0
+        self.release_plan = {}  # n-th complete lock release -> target thread
 
     def me(self):
         return self.local.idx
@@ -89,6 +95,19 @@ class Scheduler:
             raise SchedulerError(self.error)
         self.owners.append(self.local.idx)
         target = self.plan.get(self.step)
+        if target is None:
+            return
+        me = self.me()
+        if target == me or target >= self.n or self.finished[target]:
+            return
+        self.switches += 1
+        self.give_turn(target)
+        self.wait_turn(me)
+
+    def on_release(self):
+        """called when the thread holding the turn releases the cache's lock completely"""
+        self.releases += 1
+        target = self.release_plan.get(self.releases)
         if target is None:
             return
         me = self.me()
@@ -143,6 +162,9 @@ class CoopRLock:
         if self.count <= 0:
             self.count = 0
             self.owner = None
+            s = CoopRLock.sched
+            if s is not None and s.release_plan is not None and hasattr(s.local, 'idx') and not s.abort:
+                s.on_release()
 
     __enter__ = acquire
 
@@ -191,15 +213,44 @@ def prime_opcode_tracing():
 # programs
 
 _k = st.sampled_from([0, 0, 1, 1, 2, 3])       # few keys: the threads meet on the same key often
+UNHASHABLE = 9                                  # key class: an unhashable key (every operation raises TypeError and changes nothing)
+_ku = st.sampled_from([0, 0, 0, 1, 1, 1, 2, 2, 3, 3, UNHASHABLE])
 _v = st.integers(0, 3)
 _op = st.one_of(
-    st.tuples(st.just('set'), _k, _v), st.tuples(st.just('set'), _k, _v), st.tuples(st.just('set'), _k, _v),
-    st.tuples(st.just('getitem'), _k), st.tuples(st.just('getitem'), _k),
-    st.tuples(st.just('get'), _k), st.tuples(st.just('del'), _k), st.tuples(st.just('pop'), _k),
-    st.tuples(st.just('setdefault'), _k, _v), st.tuples(st.just('update'), _k, _k, _v),
+    st.tuples(st.just('set'), _ku, _v), st.tuples(st.just('set'), _k, _v), st.tuples(st.just('set'), _k, _v),
+    st.tuples(st.just('getitem'), _ku), st.tuples(st.just('getitem'), _ku),
+    st.tuples(st.just('get'), _ku), st.tuples(st.just('del'), _ku), st.tuples(st.just('pop'), _ku),
+    st.tuples(st.just('setdefault'), _ku, _v), st.tuples(st.just('update'), _k, _k, _v),
     st.tuples(st.just('clear')), st.tuples(st.just('copy')), st.tuples(st.just('popitem')),
-    st.tuples(st.just('contains'), _k), st.tuples(st.just('len')),
+    st.tuples(st.just('contains'), _ku), st.tuples(st.just('len')),
 ).map(list)
+
+# 'bulk' programs: one thread performs an update() with thousands of items, the other small operations on the first/last
+# of those keys; pre-emption only where the lock is released completely (see run_bulk)
+BULK_BASE = 100
+_bulk_n = st.sampled_from([1000, 4097, 4097, 5000, 8193])
+
+
+def _bulk_case(draw):
+    n = draw(_bulk_n)
+    kb = st.sampled_from([0, 1, BULK_BASE, BULK_BASE + 1, BULK_BASE + n - 1, BULK_BASE + n - 2, BULK_BASE + n // 2])
+    small = st.one_of(
+        st.tuples(st.just('len')), st.tuples(st.just('len')), st.tuples(st.just('copy')),
+        st.tuples(st.just('contains'), kb), st.tuples(st.just('getitem'), kb), st.tuples(st.just('get'), kb),
+        st.tuples(st.just('set'), kb, _v), st.tuples(st.just('del'), kb), st.tuples(st.just('pop'), kb),
+    ).map(list)
+    big = ['bigupdate', n, draw(st.sampled_from(['dict', 'pairs', 'gen', 'keys_obj', 'kwargs']))]
+    p0 = draw(st.lists(small, max_size=1)) + [big] + draw(st.lists(small, max_size=1))
+    others = draw(st.lists(st.lists(small, min_size=1, max_size=3), min_size=1, max_size=2))
+    return {
+        'sub': 'bulk',
+        'cls': draw(st.sampled_from(['LRI', 'LRU'])),
+        'max_size': draw(st.sampled_from([3, n // 2, n + 10, n + 10, 2 * n])),
+        'on_miss': draw(st.sampled_from(['none', 'tuple'])),
+        'init': draw(st.lists(st.tuples(st.sampled_from([0, 1, BULK_BASE]), _v).map(list), max_size=2)),
+        'programs': [p0] + others,
+        'multi': draw(st.lists(st.lists(st.tuples(st.integers(1, 40), st.integers(0, 2)).map(list), min_size=2, max_size=3), max_size=6)),
+    }
 
 
 def strat(tier):
@@ -215,7 +266,21 @@ def strat(tier):
 
 
 def K(i):
+    if i == UNHASHABLE:
+        return ['unhashable']
     return 'k%d' % i
+
+
+class KeysObj:
+    """a mapping-like update() source that only offers keys() and __getitem__"""
+    def __init__(self, n):
+        self.n = n
+
+    def keys(self):
+        return (K(BULK_BASE + i) for i in range(self.n))
+
+    def __getitem__(self, k):
+        return int(k[1:]) - BULK_BASE
 
 
 def apply_real(c, op):
@@ -237,6 +302,19 @@ def apply_real(c, op):
             return ('ok', c.setdefault(K(op[1]), op[2]))
         if name == 'update':
             c.update({K(op[1]): op[3], K(op[2]): op[3] + 10})
+            return ('ok', None)
+        if name == 'bigupdate':
+            n, src = op[1], op[2]
+            if src == 'dict':
+                c.update({K(BULK_BASE + i): i for i in range(n)})
+            elif src == 'pairs':
+                c.update([(K(BULK_BASE + i), i) for i in range(n)])
+            elif src == 'gen':
+                c.update((K(BULK_BASE + i), i) for i in range(n))
+            elif src == 'keys_obj':
+                c.update(KeysObj(n))
+            else:
+                c.update({}, **{K(BULK_BASE + i): i for i in range(n)})
             return ('ok', None)
         if name == 'clear':
             c.clear()
@@ -260,7 +338,15 @@ def apply_model(ref, op, observed):
     """apply op to the reference; returns the reference result, or ('mismatch',) when the observed result is impossible here"""
     name = op[0]
     od = ref.od
+    if len(op) > 1 and op[1] == UNHASHABLE and name in ('set', 'getitem', 'get', 'del', 'pop', 'setdefault', 'contains'):
+        if name == 'pop' and not od:
+            return ('ok', 'dflt')       # like the builtin: dict.pop on an empty dict returns the default without hashing the key
+        return ('exc', 'TypeError')
     try:
+        if name == 'bigupdate':
+            for i in range(op[1]):
+                ref.set(K(BULK_BASE + i), i)
+            return ('ok', None)
         if name == 'set':
             ref.set(K(op[1]), op[2])
             return ('ok', None)
@@ -381,12 +467,13 @@ def linearizable(case, results, final_items, final_order):
     return res
 
 
-def execute(case, plan):
+def execute(case, plan, release_plan=None, trace=True):
     """run the programs under the given pre-emption plan.  Returns dict or raises SchedulerError text in result."""
     prime_opcode_tracing()
     cls = {'LRI': LRI, 'LRU': LRU}[case['cls']]
     progs = case['programs']
     sched = Scheduler(len(progs), plan)
+    sched.release_plan = dict(release_plan or {})
     real_rlock = cacheutils.RLock
     cacheutils.RLock = CoopRLock
     CoopRLock.sched = None
@@ -406,7 +493,8 @@ def execute(case, plan):
         sched.local.idx = t
         try:
             sched.wait_turn(t)
-            sys.settrace(tracer)
+            if trace:
+                sys.settrace(tracer)
             try:
                 for i, op in enumerate(progs[t]):
                     results[t][i] = apply_real(c, op)
@@ -439,14 +527,21 @@ def execute(case, plan):
     if any(th.is_alive() for th in threads):
         _RUNAWAY[0] = True      # a thread of this run is still alive: this process must not run further schedules
     return {'cache': c, 'results': results, 'steps': sched.step, 'switches': sched.switches, 'lock_yields': sched.lock_yields,
-            'owners': sched.owners,
+            'owners': sched.owners, 'releases': sched.releases,
             'error': sched.error or ('threads did not finish within 30 s' if hung else None)}
 
 
-def check_run(case, plan, out):
-    r = execute(case, plan)
+def _short(x, n=400):
+    t = repr(x)
+    return t if len(t) <= n else t[:n] + '...(%d chars)' % len(t)
+
+
+def check_run(case, plan, out, release_plan=None, trace=True):
+    r = execute(case, plan, release_plan, trace)
     where = '%s(max_size=%d, on_miss=%s) initial %r, thread programs %r, pre-emptions (opcode index -> thread) %r' % (
         case['cls'], case['max_size'], case['on_miss'], [(K(k), v) for k, v in case['init']], case['programs'], sorted(plan.items()))
+    if release_plan:
+        where += ', pre-emptions at complete lock releases (n-th release -> thread) %r' % sorted(release_plan.items())
     if r['error']:
         out.fail('hang' if _RUNAWAY[0] else 'c03.deadlock', '%s: %s' % (where, r['error']))
         return None
@@ -466,7 +561,10 @@ def check_run(case, plan, out):
         return None
     snapshot_results = [list(row) for row in results]
     try:
-        order, err = probe_order(c, case['max_size'])
+        if case['max_size'] > 16:
+            order, err = None, None     # large caches (bulk programs): contents are compared, the quadratic order probe is skipped
+        else:
+            order, err = probe_order(c, case['max_size'])
     except Exception as e:      # noqa
         out.fail('c03.unusable', '%s: the cache is unusable afterwards: inserting fresh keys raised %r; results %r, final items %r' % (
             where, e, snapshot_results, final_items))
@@ -475,8 +573,8 @@ def check_run(case, plan, out):
         out.fail('c03.corrupt', '%s: %s; results %r, final items %r' % (where, err, snapshot_results, final_items))
         return None
     if not linearizable(case, results, final_items, order):
-        out.fail('c03.not-linearizable', '%s: observed results %r, final items %r, final eviction order %r - no sequential execution of the same '
-                 'operations (respecting each thread\'s order) produces this' % (where, snapshot_results, final_items, order))
+        out.fail('c03.not-linearizable', '%s: observed results %s, final items %s, final eviction order %r - no sequential execution of the same '
+                 'operations (respecting each thread\'s order) produces this' % (where, _short(snapshot_results), _short(final_items), order))
         return None
     # usable epilogue
     try:
@@ -489,7 +587,41 @@ def check_run(case, plan, out):
     return r
 
 
+def run_bulk(case):
+    """programs with a many-thousand-item update(): per-opcode enumeration is out of reach, so the pre-emption points are the
+    complete releases of the cache's lock - in an atomic implementation these only occur between operations"""
+    out = Outcome()
+    if _RUNAWAY[0]:
+        return out.fail('hang', 'a thread of an earlier schedule never finished in this process; no further schedules are run here')
+    nthreads = len(case['programs'])
+    base = check_run(case, {}, out, {}, trace=False)
+    if base is None:
+        return out
+    rel = base['releases']
+    if rel == 0:
+        raise HarnessError('the cooperative lock was never released during a bulk program')
+    runs = 1
+    switched = 0
+    plans = [{p: t} for p in range(1, rel + 1) for t in range(1, nthreads)]
+    for plan in case['multi']:
+        plans.append({1 + (idx % (rel + 2)): target % nthreads for idx, target in plan})
+    for pl in plans:
+        r = check_run(case, {}, out, pl, trace=False)
+        runs += 1
+        if r is None:
+            out.units = runs
+            return out
+        switched += r['switches']
+    out.units = runs
+    out.nontrivial = switched > 0
+    out.label('bulk:n=%d' % max(op[1] for op in case['programs'][0] if op[0] == 'bigupdate'))
+    out.label('bulk:max_size%s' % ('<n' if case['max_size'] < 1000 else '>=n/2'))
+    return out
+
+
 def run(case):
+    if case.get('sub') == 'bulk':
+        return run_bulk(case)
     out = Outcome()
     if _RUNAWAY[0]:
         return out.fail('hang', 'a thread of an earlier schedule never finished in this process; no further schedules are run here')
@@ -555,6 +687,11 @@ def run(case):
     return out
 
 
+def strat_bulk(tier):
+    return st.composite(_bulk_case)()
+
+
 SUBS = {
     'sched': Sub('sched', strat, run, quick=256, thorough=9600, quick_shards=16),
+    'bulk': Sub('bulk', strat_bulk, run_bulk, quick=160, thorough=4800, quick_shards=16),
 }
